@@ -314,7 +314,8 @@ func (r *runner) checkFrame(f *wire.CryptoFrame) *vf.Verdict {
 		return vf.Bad("C09/"+r.area+"/out-of-stream", "popped CRYPTO frame [%d,%d) lies outside the %d bytes written", off, off+n, len(r.written))
 	}
 	if n == 0 {
-		return vf.Bad("C09/"+r.area+"/empty-frame", "PopCryptoFrame returned an empty CRYPTO frame at offset %d", off)
+		r.frames++ // an empty CRYPTO frame carries nothing and violates nothing; the drain loop bounds the number of pops
+		return nil
 	}
 	if !bytes.Equal(f.Data, r.written[off:off+n]) {
 		k := 0
@@ -394,7 +395,17 @@ func (r *runner) drain() *vf.Verdict {
 // counted in the class "scramble:ood-ech-without-sni:<signature observed>".
 const sigECHWithoutSNI = "C09/scrambler/ech-without-sni"
 
+// checkS decides one stream case. "It never panics" is part of the property, so a panic of the
+// stream is a violation with its own signature.
 func checkS(c SCase, u *vf.Unit) *vf.Verdict {
+	area := "splitter"
+	if c.Mode == "scramble" {
+		area = "scrambler"
+	}
+	return vf.Guard("C09/"+area, func() *vf.Verdict { return checkS1(c, u) })
+}
+
+func checkS1(c SCase, u *vf.Unit) *vf.Verdict {
 	if c.Mode == "scramble" && c.CH != nil && len(c.Flips) == 0 && c.Trunc == 0 {
 		_, sniPos, _, echPos := c.CH.encode()
 		if echPos >= 0 && sniPos < 0 {
